@@ -161,20 +161,10 @@ def run_real(wd, insts):
         return json.load(fh)
 
 
-def validate_instances(ctx, quick_n=None):
+def validate_instances(ctx, quick=False):
     """spec -> code: GenColour instances through the real function, judged by TraceColour."""
-    insts = gen.generate("GenColour", deps=(), timeout=1800)
+    insts = gen.generate("GenColour", deps=(), env={"COL_SCALE": "quick" if quick else "full"}, timeout=1800)
     ctx.cov["colour_instance_universe"] = len(insts)
-    if quick_n and len(insts) > quick_n:
-        # fixed stratified slice: every k-th instance of every group, offset rotated by the seed
-        by = {}
-        for it in insts:
-            by.setdefault(it["grp"], []).append(it)
-        sel = []
-        for g in sorted(by):
-            k = max(1, len(by[g]) * len(by) // quick_n)
-            sel += by[g][ctx.seed % k::k]
-        insts = sel
     outs = run_real(ctx.wd, insts)
     calls, raw = [], {}
     for i, (it, o) in enumerate(zip(insts, outs)):
